@@ -462,9 +462,10 @@ pub fn run_check12(ctx: &mut Ctx) {
 pub fn run_check13(ctx: &mut Ctx) {
     ctx.rule = format!("{}. oracle C13: format(format(p)) == format(p) with the same options, every file", RULE);
     let n = ctx.tier.pick(14_000, 300_000);
-    // (both were triggers of findings that have been repaired: part of the clean domain)
-    ctx.campaign_parallel("clean-domain", n, 16, || strategy(vec!["label_and_instruction_on_one_line".to_string(), "comment_before_statement_same_line".to_string(), "config_pairs_on_one_line".to_string()]), prop13, to_json);
-    for f in ["multiline_block_comment", "empty_line_comment"] {
+    // (`label: instruction` and two config pairs on one line were triggers of findings that have been repaired: part of
+    // the clean domain. A comment in front of a statement on the same line still is one.)
+    ctx.campaign_parallel("clean-domain", n, 16, || strategy(vec!["label_and_instruction_on_one_line".to_string(), "config_pairs_on_one_line".to_string()]), prop13, to_json);
+    for f in ["multiline_block_comment", "empty_line_comment", "comment_before_statement_same_line"] {
         let n2 = ctx.tier.pick(1500, 30_000);
         ctx.campaign_parallel(&format!("feature:{}", f), n2, 8, || strategy(vec![f.to_string()]), prop13, to_json);
     }
